@@ -240,3 +240,38 @@ def run_batch_file(layer, cmds, out_dir, name, runner_prefix=(), timeout=3600, e
                 if line:
                     replies.append(json.loads(line))
     return replies, p.returncode, p.stderr.decode("utf-8", "replace")
+
+
+def crash_kind(reply):
+    """None for a normal ok/err reply, else 'panic' | 'died' | 'hang' | 'inconclusive'."""
+    if "ok" in reply or "err" in reply:
+        return None
+    for k in ("panic", "died", "hang", "inconclusive"):
+        if k in reply:
+            return k
+    raise HarnessError("unclassifiable reply %r" % (reply,))
+
+
+def crash_key(reply):
+    """Stable identification of a crash: panic location, else the kind of death."""
+    if "panic" in reply:
+        return "panic@" + (reply.get("at") or "?")
+    if "died" in reply:
+        return "died:" + reply["died"]
+    if "hang" in reply:
+        return "hang"
+    return "inconclusive"
+
+
+def handle_crash(rep, reply, replay, context=""):
+    """Common treatment: panic/death/hang are violations (C17-style), watchdog-unconfirmed is
+    inconclusive. Returns True if the reply was a crash."""
+    k = crash_kind(reply)
+    if k is None:
+        return False
+    if k == "inconclusive":
+        rep.inconclusive_item({"what": reply, "replay": replay})
+        return True
+    rep.violation(k, crash_key(reply) + (":" + context if context else ""),
+                  {k2: v for k2, v in reply.items() if k2 != "id"}, replay)
+    return True
